@@ -4,6 +4,7 @@ pub mod gated;
 pub mod hostile;
 pub mod lifecycle;
 pub mod lockstep;
+pub mod types;
 
 use crate::common::{Report, Rng};
 
@@ -40,6 +41,7 @@ pub fn dispatch(engine: &str, ctx: &Ctx, rng: Rng, rep: &mut Report) {
         "hostile" => hostile::run(ctx, rng, rep),
         "differential" => differential::run(ctx, rng, rep),
         "gated" => gated::run(ctx, rng, rep),
+        "types" => types::run_types(ctx, rng, rep),
         "close" => lifecycle::run_close(ctx, rng, rep),
         "waitrace" => lifecycle::run_waitrace(ctx, rng, rep),
         "grid" => lifecycle::run_grid(ctx, rng, rep),
